@@ -718,7 +718,15 @@ def execute(case: dict) -> dict:  # noqa: C901, PLR0912, PLR0915
                     reqs = [q for q, lan in ri + ir if not lan and q.data[22] in REQ_IDS]
                     by_b = [q for q in reqs if any(when <= q.t and tuple(q.dst) in addrs
                                                    for when, addrs in handed.get(q.src_node, ()))]
-                    if by_b or not reqs:
+                    # a pair that had already exchanged signed messages through the NAT (address from a NATed third peer)
+                    # BEFORE B introduced them keeps using the address it knows: not a connection made by B's introduction
+                    first_contact = min((q.t for q, _lan in ri + ir), default=None)
+                    t_intro = min(ev[3] for ev in events)
+                    if first_contact is not None and first_contact < t_intro and not any(
+                            when <= first_contact for x in (r_name, i_name) for when, addrs in handed.get(x, ())
+                            if {t.wan(r_name), t.wan(i_name), t.lan(r_name), t.lan(i_name)} & addrs):
+                        world.probe("same_nat_pair_connected_before_introduction")
+                    elif by_b or not reqs:
                         c.violate("lan", "same_nat_pair_not_over_lan",
                                   f"{r_name} {t.lan(r_name)} and {i_name} {t.lan(i_name)} share NAT "
                                   f"{t.nat(r_name).wan_ip} ({t.kind[r_name]}), B introduced lan={lan_i} wan={wan_i} and "
